@@ -762,6 +762,9 @@ def handler_invocation(handler, request):
     # a dictionary.
     info = signature_info(handler)
     if isinstance(args, (tuple, list)):
+        if info.required_kwonly:
+            raise RPCError.invalid_args(f'method "{method}" cannot '
+                                        f'be called with positional arguments')
         if len(args) < info.min_args:
             s = '' if len(args) == 1 else 's'
             raise RPCError.invalid_args(
